@@ -23,7 +23,9 @@ MIN_NONTRIVIAL = {"quick": 5000, "thorough": 100000}
 REQUIRED_COUNTERS = {"probe_in_enter": {"quick": 300, "thorough": 3000},
                      "probe_in_exit_normal": {"quick": 300, "thorough": 3000},
                      "probe_in_exit_exc": {"quick": 100, "thorough": 1000},
-                     "probe_in_aexit": {"quick": 100, "thorough": 1000}}
+                     "probe_in_aexit": {"quick": 100, "thorough": 1000},
+                     "probe_in_unpack_iter": {"quick": 100, "thorough": 1000},
+                     "probe_in_result_del": {"quick": 100, "thorough": 1000}}
 SHARD_TIMEOUT = {"quick": 400, "thorough": 5400}
 INTERPS = ["3.12", "3.11", "3.10", "3.9"]
 
@@ -111,6 +113,10 @@ def worker(spec):
         if nontrivial:
             res.count("probes_nontrivial")
             res.nontrivial(interp, state["label"], state["rseed"], state["nprobe"])
+        if tag[0] == "unpack-iter":
+            res.count("probe_in_unpack_iter")
+        elif tag[0] == "result-del":
+            res.count("probe_in_result_del")
         if tag[0] in ("enter", "aenter"):
             res.count("probe_in_enter")
         elif tag[0] in ("exit", "aexit"):
